@@ -17,6 +17,7 @@ pub struct Args {
     pub files: usize,
     pub long: usize,
     pub script: Option<String>,
+    pub nonull: bool,
 }
 
 fn parse(rest: &[String]) -> Args {
@@ -30,6 +31,7 @@ fn parse(rest: &[String]) -> Args {
         files: 1,
         long: 0,
         script: None,
+        nonull: false,
     };
     let mut i = 0;
     while i < rest.len() {
@@ -44,6 +46,7 @@ fn parse(rest: &[String]) -> Args {
             "--files" => a.files = v.parse().unwrap(),
             "--long" => a.long = v.parse().unwrap(),
             "--script" => a.script = Some(v),
+            "--nonull" => a.nonull = v == "1",
             x => panic!("unknown arg {x}"),
         }
         i += 2;
@@ -211,7 +214,7 @@ fn run_long(a: &Args, roots: &[String], rng: &mut StdRng, out: &mut impl Write) 
             continue;
         }
         // a pass now and then (never in check, never twice in a row), as a search does
-        if rng.gen_bool(0.04) && !game.is_king_in_check() && game.history.last().map_or(true, |h| h.mv.is_some()) {
+        if !a.nonull && rng.gen_bool(0.04) && !game.is_king_in_check() && game.history.last().map_or(true, |h| h.mv.is_some()) {
             if !guarded(out, "null", None, &mut game, Game::make_null_move) {
                 return;
             }
